@@ -18,7 +18,12 @@ JudgeOrd(e) == /\ e.out.k = "ok"
                /\ EqOK(e.args.a, e.args.b, e.out.eq) /\ OrdConsistent(e.args.a, e.args.b, e.out.cmp)
                /\ (e.out.cmp = 0) = (e.out.rcmp = 0) /\ (e.out.cmp = -1) = (e.out.rcmp = 1)     \* antisymmetry
 JudgeExtras(e) == e.out.k = "ok" /\ ExtrasDecoded(e.args.doc, e.out.o) /\ ExtrasAfterCycle(e.out.o2)
+JudgeRender(e) == /\ e.out.k = "ok"
+                  /\ (RenderJudged(e.args.a) => /\ e.out.display = Render(e.args.a)
+                                                /\ e.out.alt = RenderAlt(e.args.a)
+                                                /\ e.out.debug = RenderDebug(e.args.a))
 Judge(e) == CASE e.op = "seek" -> JudgeSeek(e)
+              [] e.op = "render" -> JudgeRender(e)
               [] e.op = "setters" -> JudgeSetters(e)
               [] e.op = "ord" -> JudgeOrd(e)
               [] e.op = "extras" -> JudgeExtras(e)
